@@ -224,7 +224,7 @@ def growth_sites(b, vk, blocks):
 def r201(facts, res):
     R = 'R20.1'
     allsinks = sinks(facts)
-    res.floor(R, 'unchecked usize->StorageT narrowing sites', len(allsinks), 30)
+    res.floor(R, 'unchecked usize->StorageT narrowing sites', len(allsinks), 24)
     np1 = 0
     per = {}
     for b, bb, t in allsinks:
@@ -471,7 +471,7 @@ def r204(facts, res):
                 res.bad(R, key, loc_of(body, bb), 'the iteration order of a hash container keyed by StorageT values (it differs between u8, u16 and u32: the keys hash '
                         'differently) reaches an ordered result: %s' % '; '.join((unc or problems)[:3]),
                         {'function': body.path, 'container': st, 'problems': problems})
-    res.floor(R, 'iterations over hash containers keyed by StorageT values', n, 8)
+    res.floor(R, 'iterations over hash containers keyed by StorageT values', n, 6)
 
 
 def r205(facts, res):
